@@ -34,7 +34,7 @@ RULE = ('cases: seeded model configurations (plain / grid / continuous world, wr
         'of different seeds of one configuration differ. Non-trivial: trajectory with >=20 random picks/shuffles whose digest was '
         'compared under >=8 perturbations; distinct by (configuration, seed).')
 ASSUMPTIONS = ['"for all seeds / hash seeds / process counts" is sampled', 'the fixture draws all of its own randomness from model.random']
-FLOORS = {'quick': {'deep_copied_models_compared': 160, 'recycled_worlds_with_earlier_draws': 129, 'recycled_world_comparisons': 160, 'batch_runs_open_signature_model': 8, 'digests_compared': 280, 'trajectories': 24, 'watched_calls': 20000, 'global_reseeds': 5000, 'interleaved_other_models': 500,
+FLOORS = {'quick': {'configurations_seeded_by_assignment_with_the_default_environment': 1, 'configurations_seeded_by_assigning_model_random': 1, 'deep_copied_models_compared': 160, 'recycled_worlds_with_earlier_draws': 129, 'recycled_world_comparisons': 160, 'batch_runs_open_signature_model': 8, 'digests_compared': 280, 'trajectories': 24, 'watched_calls': 20000, 'global_reseeds': 5000, 'interleaved_other_models': 500,
                     'fresh_interpreter_digests': 96, 'batch_worker_digests': 72, 'distinct_seed_pairs_differ': 30, 'big_configurations': 2, 'seed_zero_trajectories': 6,
                     'hash_seeds_used': 4, 'reach:Core.Environment.get_random_agent': 14000, 'reach:Core.Environment.shuffle': 8600},
           'thorough': {'digests_compared': 6000, 'trajectories': 500, 'watched_calls': 400000}}
@@ -79,7 +79,7 @@ def gen_big_cfg(rng):
 
 def gen_cfg(rng):
     world = rng.choice(['plain', 'grid', 'space'])
-    return {'world': world, 'w': rng.randint(3, 9), 'h': rng.randint(3, 9), 'wrap': rng.random() < 0.5, 'n': rng.randint(4, 14),
+    return {'assign_seed': False, 'world': world, 'w': rng.randint(3, 9), 'h': rng.randint(3, 9), 'wrap': rng.random() < 0.5, 'n': rng.randint(4, 14),
             'mix': rng.choice(['bdm', 'bdm', 'bm', 'dm', 'bd', 'm']), 'steps': rng.randint(6, 14)}
 
 
@@ -110,6 +110,14 @@ def case_cfg(ctx, case):
     cfg = gen_big_cfg(rng) if case.get('big') else gen_cfg(rng)
     if case.get('big'):
         ctx.count('big_configurations')
+    if not case.get('big') and case['i'] % 3 == 1:
+        # every third configuration is seeded by assigning `model.random` (in turn with the default plain environment, which exists before
+        # the assignment, and with worlds installed after it)
+        cfg['assign_seed'] = True
+        cfg['world'] = ['plain', 'grid', 'space'][(case['i'] // 3) % 3]
+        ctx.count('configurations_seeded_by_assigning_model_random')
+        if cfg['world'] == 'plain':
+            ctx.count('configurations_seeded_by_assignment_with_the_default_environment')
     seeds = [0, rng.randint(1, 10 ** 6), rng.choice([2 ** 40 + 7, 1, 42]), -1, -rng.randint(2, 10 ** 9)] + \
         [rng.randint(1, 10 ** 9) for _ in range(N_SEEDS[ctx.tier] - 3)]
     if case.get('big'):
